@@ -3,11 +3,12 @@
 # without the TSan runtime (sim/rt_mem.cpp implements the __tsan_* ABI).
 CXX      := clang++
 REPO     ?= /repo
-BUILD    ?= /verif/build
+ROOT     := $(patsubst %/,%,$(dir $(abspath $(lastword $(MAKEFILE_LIST)))))
+BUILD    ?= $(ROOT)/build
 GUARD    := -DGMLC_CONCURRENCY_VERIF
 RTFLAGS  := -std=c++17 -O2 -g -fno-omit-frame-pointer -fPIE -Wall -Wno-unused-function -fno-builtin
 INSTR    := -fsanitize=thread -mllvm -tsan-instrument-func-entry-exit=0
-WLFLAGS  := -std=c++17 -O1 -g -fno-omit-frame-pointer -fPIE $(INSTR) $(GUARD) -I$(REPO) -I/verif/sim -Wall -Wno-unused-function $(EXTRA)
+WLFLAGS  := -std=c++17 -O1 -g -fno-omit-frame-pointer -fPIE $(INSTR) $(GUARD) -I$(REPO) -I$(ROOT)/sim -Wall -Wno-unused-function $(EXTRA)
 LDFLAGS  := -pie -rdynamic -ldl -lpthread
 
 RT_SRCS := rt.cpp rt_sync.cpp rt_heap.cpp rt_mem.cpp
